@@ -47,7 +47,7 @@ fn main() {
                 Some("connx") => connx::replay(r),
                 Some("connw") => connw::replay(r),
                 Some("srvx") => srvx::replay(r),
-                Some("c05") => props::c05::replay(r),
+                Some("c05") | Some("c05len") => props::c05::replay(r),
                 Some("c14") => props::c14::replay(r),
                 Some("c15line") | Some("c15block") => props::c15::replay(r),
                 Some("c16tok") | Some("c16uri") => props::c16::replay(r),
